@@ -14,6 +14,9 @@
 (*        clock   until a clock reached N ticks (read once per callback of   *)
 (*                cbf frames)                                                *)
 (*        echo    between an impulse and its first echo through a delay      *)
+(*        filter  from a step to the moment the output of a critically       *)
+(*                damped low-pass filter (cutoff in hertz) crosses one half:  *)
+(*                1.678 / (2 pi cutoff) seconds; 10 % for the discretisation  *)
 (*        rmin = the lowest device rate in force during the measurement      *)
 EXTENDS Integers
 
@@ -29,9 +32,11 @@ Check(m, e) ==
          LET frame == 1000 \div e.rmin + 1                       \* one device frame, in ms
              lo == CASE e.what = "sound" -> e.secs1000 - frame
                      [] e.what = "clock" -> e.secs1000 - frame
+                     [] e.what = "filter" -> e.secs1000 - frame - e.secs1000 \div 10
                      [] OTHER -> e.secs1000 - frame
              hi == CASE e.what = "sound" -> e.secs1000 + 2 * e.srcms + frame
                      [] e.what = "clock" -> e.secs1000 + e.cbf * frame
+                     [] e.what = "filter" -> e.secs1000 + frame + e.secs1000 \div 10
                      [] OTHER -> e.secs1000 + frame
          IN IF e.ms < lo \/ e.ms > hi THEN "seconds_independent_of_sample_rate" ELSE ""
     [] e.a = "panic" -> "no_panic"
